@@ -1,3 +1,4 @@
+import H2.Proofs.MsgRefineFrames
 import H2.Proofs.MsgRefineReq
 import H2.Proofs.MsgRefineDecide
 import H2.Proofs.Msg
@@ -296,5 +297,100 @@ example : validate {} ((decRun 8 demoR.s.dec true 0 [0x83, 0x87, 0x84, 0x0f, 0x0
     .rst Gen.c_ProtocolError := by decide +kernel
 
 end LongShape
+
+/-! ## APPEND (third section) to `lean/H2/Props/C20.lean`, before `end H2.Props.C20`; needs the extra import line
+`import H2.Proofs.MsgRefineFrames`  (which imports `H2.Proofs.MsgRefineTrailers` and, through it, `H2.Proofs.MsgRefineReq`). -/
+
+/-! ## the long shape with trailers; header blocks in several frames -/
+
+section Trailers
+open H2.Server H2.Server.Lock
+
+/-- **the full model dispatches a request with trailers iff it is well-formed**:
+`HEADERS(END_HEADERS), DATA*, trailers HEADERS(END_HEADERS | END_STREAM)` on a stream the stream loop has just created, the frames
+handled one after the other by the body of the stream loop (`runReq`: up to the first frame that is answered); `hs` / `trailers`
+the fields the two blocks decode to (the trailer block from the decoder state the request block left), `dataLen` the DATA
+octets; within the limits, no `content-length` among the trailers (`NoTrailerCL`, as in `dispatched_iff_wf`); the other
+entries of the stream table `Settled` (their header blocks finished, none idle with a lower id — what `headersPrelude` looks at
+when the trailer HEADERS frame arrives). Besides WINDOW_UPDATEs exactly one output: the dispatch record with the message
+model's request view iff `WFRequest hs trailers dataLen`, RST_STREAM(PROTOCOL_ERROR) otherwise -/
+theorem long_request_with_trailers_dispatched_iff_wf (r : R) (uid : Nat) (frH frT : H2.Frame.Frame) (ds : List H2.Frame.Frame)
+    (st : Strm) (es esT : Bool) (prio prioT : Option (Nat × Nat)) (frag fragT : Bytes)
+    (ht : Tbl r uid st (Settled st.id)) (hf : Fresh st) (htyp : frH.typ = Gen.c_FrameHeaders)
+    (hb : frH.body = .headers es true prio frag) (heh : H2.Frame.hasFlag frH.flags Gen.c_FlagEndHeaders = true)
+    (hes : H2.Frame.hasFlag frH.flags Gen.c_FlagEndStream = false)
+    (hprio : ∀ dep w, prio = some (dep, w) → (dep == st.id) = false)
+    (hp : headersPrelude r frH = (r, true))
+    (fs : List H2.Hpack.Field) (d : H2.Hpack.DecState) (hdec : decRun (frag.length + 1) r.s.dec true 0 frag = (fs, .clean d))
+    (hds : ∀ fr ∈ ds, PlainData fr)
+    (hTt : frT.typ = Gen.c_FrameHeaders) (hTs : frT.stream = st.id) (hTb : frT.body = .headers esT true prioT fragT)
+    (hTeh : H2.Frame.hasFlag frT.flags Gen.c_FlagEndHeaders = true)
+    (hTes : H2.Frame.hasFlag frT.flags Gen.c_FlagEndStream = true)
+    (hTprio : ∀ dep w, prioT = some (dep, w) → (dep == st.id) = false)
+    (fsT : List H2.Hpack.Field) (d2 : H2.Hpack.DecState) (hdecT : decRun (fragT.length + 1) d true 0 fragT = (fsT, .clean d2))
+    (hl : WithinLimits (cfgOf r.s.cfg) (fs.map kv) (fsT.map kv) (tot ds)) (hnt : NoTrailerCL (fsT.map kv)) :
+    (WFRequest (fs.map kv) (fsT.map kv) (tot ds) →
+      ∃ v body, requestView (cfgOf r.s.cfg) (fs.map kv) (fsT.map kv) (tot ds) = some v ∧
+        sig (runReq r uid (frH :: (ds ++ [frT]))).out = sig r.out ++ [dispOut st.id v body]) ∧
+    (¬ WFRequest (fs.map kv) (fsT.map kv) (tot ds) →
+      sig (runReq r uid (frH :: (ds ++ [frT]))).out = sig r.out ++ [.rst st.id Gen.c_ProtocolError]) := by
+  obtain ⟨o, h1, h2⟩ := long_request_trailers r uid frH frT ds st es esT prio prioT frag fragT ht hf htyp hb heh hes hprio hp
+    fs d hdec hds hTt hTs hTb hTeh hTes hTprio fsT d2 hdecT
+  constructor
+  · intro hwf
+    have hv := (dispatched_iff_wf (cfgOf r.s.cfg) (fs.map kv) (fsT.map kv) (tot ds) hl hnt).mpr hwf
+    rw [hv] at h2
+    obtain ⟨v, body, e1, e2⟩ := h2
+    exact ⟨v, body, e1, by rw [h1, e2]⟩
+  · intro hwf
+    have hv := malformed_refused (cfgOf r.s.cfg) (fs.map kv) (fsT.map kv) (tot ds) hl hnt hwf
+    rw [hv] at h2
+    have : o = .rst st.id Gen.c_ProtocolError := h2
+    rw [h1, this]
+
+/-- **a header block in HEADERS + CONTINUATION frames, at the frame level**: `handleHeaderFrame` frame after frame (`hdrFrames`)
+ends with the verdict it gives the whole block in one HEADERS frame with END_HEADERS, and when accepted with the same `msgSt`
+and decoder state (`cutsOK`: F68's bound on what is carried over) -/
+theorem block_frames_are_whole (s : Srv) (st : Strm) (frH frW : H2.Frame.Frame) (cs : List H2.Frame.Frame) (es es' : Bool)
+    (prio prio' : Option (Nat × Nat)) (p0 : Bytes) (ps : List Bytes)
+    (hb : frH.body = .headers es false prio p0) (hfin : st.headersFinished = false)
+    (hprio : ∀ dep w, prio = some (dep, w) → (dep == st.id) = false) (hc : ContBlock cs ps)
+    (hW : frW.body = .headers es' true prio' (p0 :: ps).flatten)
+    (hprio' : ∀ dep w, prio' = some (dep, w) → (dep == st.id) = false)
+    (hg : st.Good) (hcut : cutsOK s { st with fieldSeen := false } (p0 :: ps)) :
+    absFin (hdrFrames s st (frH :: cs)) = absFin (handleHeaderFrame s st frW) :=
+  hdrFrames_whole s st frH frW cs es es' prio prio' p0 ps hb hfin hprio hc hW hprio' hg hcut
+
+/-! non-vacuity: the demo table is `Settled`; POST with content-length 3, DATA "a", DATA "bc", trailers `x-t: 1` with END_STREAM —
+evaluated on the full model: one dispatch record; a pseudo-header among the trailers: RST_STREAM(PROTOCOL_ERROR) -/
+
+example : Tbl demoR 0 demoStrm (Settled demoStrm.id) := by
+  refine ⟨rfl, ?_, ?_⟩
+  · intro x hx _
+    have : x = demoStrm := by simpa [demoR] using hx
+    exact this
+  · intro x hx hu
+    have : x = demoStrm := by simpa [demoR] using hx
+    subst this
+    exact absurd rfl hu
+
+def trailerFrame (frag : Bytes) : H2.Frame.Frame :=
+  { typ := Gen.c_FrameHeaders, flags := 5, stream := 1, length := frag.length, body := .headers true true none frag }
+
+example : ((sig (runReq demoR 0 [postFrame 0x33, dataFrame false [97], dataFrame false [98, 99],
+    trailerFrame [0x00, 0x03, 120, 45, 116, 0x01, 49]]).out).map Out.toString) =
+    ["dispatch(1,m=504f5354,p=2f,a=-,f=782d74:31,b=3:294:96)"] := by decide +kernel
+example : ((sig (runReq demoR 0 [postFrame 0x33, dataFrame false [97], dataFrame false [98, 99],
+    trailerFrame [0x82]]).out).map Out.toString) = ["RST(1,1)"] := by decide +kernel
+/-- a block in three frames through `handleHeaderFrame`: the path is what the whole block gives -/
+def contFrame (eh : Bool) (frag : Bytes) : H2.Frame.Frame :=
+  { typ := Gen.c_FrameContinuation, flags := if eh then 4 else 0, stream := 1, length := frag.length, body := .continuation eh frag }
+example : ContBlock [contFrame false [0x2f], contFrame true [0x61]] [[0x2f], [0x61]] :=
+  .cons _ _ _ _ _ _ rfl rfl (by decide) (.last _ _ rfl rfl (by decide))
+example : (absFin (hdrFrames demoR.s demoStrm
+    [{ typ := Gen.c_FrameHeaders, flags := 0, stream := 1, length := 4, body := .headers false false none [0x82, 0x87, 0x44, 0x02] },
+     contFrame false [0x2f], contFrame true [0x61]])).toOption.map (·.1.path) = some [47, 97] := by decide +kernel
+
+end Trailers
 
 end H2.Props.C20
